@@ -4,6 +4,7 @@ import math
 import os
 import shutil
 import tempfile
+import zlib
 from collections import namedtuple
 
 import rx
@@ -99,8 +100,18 @@ def roundtrip(rows, types, sep=',', esc='\\'):
         parser = rscsv.create_line_parser(dtype=TypedRow, separator=sep, escapechar=esc)
     else:
         parser = rscsv.create_line_parser(dtype=[(n, t) for n, t in zip(names, types)], separator=sep, escapechar=esc)
+    # the calling convention varies with the input (all three are the same call according to the documented signatures):
+    # keywords / every argument positional / keywords with ignore_error=True (valid lines must not be affected by it)
+    dump_op = rscsv.dump(separator=sep, escapechar=esc)
+    mode = zlib.crc32(repr(rows).encode()) % 3
+    if mode == 1:
+        dump_op = rscsv.dump(True, sep, esc, '\n')
+        if Row is not TypedRow:
+            parser = rscsv.create_line_parser([(n, t) for n, t in zip(names, types)], [], sep, esc, False)
+    elif mode == 2 and Row is not TypedRow:
+        parser = rscsv.create_line_parser(dtype=[(n, t) for n, t in zip(names, types)], separator=sep, escapechar=esc, ignore_error=True)
     sink = twice(rx.from_([Row(*r) for r in rows]).pipe(
-        rscsv.dump(separator=sep, escapechar=esc),
+        dump_op,
         rx.operators.map(lambda l: l[:-1] if l.endswith('\n') else l),
         rscsv.load(parser),
     ), len(rows), limit=2)       # one- and two-row inputs are subscribed a second time (header and parser state are per subscription)
